@@ -483,7 +483,10 @@ def root(a, m: int):
         if cis0(c):
             return ZERO
         if m == 2 and not isinstance(c, QS) and c >= 0:
-            return const(QS.sqrt_rat(c))
+            try:
+                return const(QS.sqrt_rat(c))
+            except Exception:
+                return mk("root", a, 2)       # radicand too large to factor: keep the root as an atom (its square reduces in the normaliser)
         if m == 2 and isinstance(c, QS) and len(c.t) == 1:
             ((f, e), v), = c.t.items()
             if f == 1 and e % 2 == 0 and v >= 0:
